@@ -8,6 +8,30 @@ THEOREMS = ["C18.mse_nonneg", "C18.mse_refl", "C18.mse_symm", "C18.mdr_nonneg", 
             "C18.one_entry_per_tensor", "C18.inputs_filed"]
 
 
+def public_entry_point(ctx, q, data, metric, want, fail):
+    """Quantizer.validate() is the public entry point: it must report what compare_model reports for the same models and data,
+    whatever kind of iterable carries the samples (a list, or a one-shot iterator such as a generator)"""
+    import numpy as np
+    for kind in ("list", "generator"):
+        td = {sig: (list(samples) if kind == "list" else (x for x in list(samples))) for sig, samples in data.items()}
+        try:
+            r = q.validate(td, error_metrics=metric)
+        except Exception as e:  # noqa: BLE001
+            return fail(f"Quantizer.validate raised {type(e).__name__} on {kind} test data where compare_model succeeds", "validate-public-raised")
+        ctx.tag("public_validate_" + kind)
+        for sig in r.available_signature_keys():
+            g = r.get_signature_comparison_result(sig)
+            for grp, d in (("inputs", g.input_tensors), ("outputs", g.output_tensors), ("constants", g.constant_tensors),
+                           ("intermediates", g.intermediate_tensors)):
+                for name, v in want.get(sig, {}).get(grp, {}).items():
+                    if name not in d:
+                        return fail(f"Quantizer.validate ({kind} test data) does not report tensor {name}", "validate-public-missing")
+                    a, b = float(d[name]), float(v)
+                    if not (a == b or (np.isnan(a) and np.isnan(b)) or abs(a - b) <= 1e-6 * max(abs(a), abs(b))):
+                        return fail(f"Quantizer.validate ({kind} test data) reports {a!r} for {name} where the same comparison on a list of the "
+                                    f"same samples gives {b!r}", "validate-public-differs:" + kind)
+
+
 def run(ctx):
     ctx.rule = ("generated float models (incl. inputs that are outputs, constants exported as outputs, multi-signature) and their quantized "
                 "versions under generated recipes x test datasets of 1-3 samples x both metrics (mse, median_diff_ratio), plus self "
@@ -46,6 +70,8 @@ def run(ctx):
         else:
             fail(f"validate raised {r[1]}", "validate-raised-" + r[1])
         ctx.tag("metric_" + metric)
+        if r[0] == "ok":
+            public_entry_point(ctx, res["q"], data, metric, r[1], fail)
         if rng.random() < 0.35:
             r2 = fv.cmp_validate(ctx, drv, case.mb, case.mb, data, metric)
             if r2[0] == "ok":
